@@ -424,8 +424,11 @@ def run_harness(stage_dir, h, spec, extra_kani=(), playback=False, log_dir=None)
             r"Concrete playback unit test for `[^`]*`:\n```\n(.*?)```", out, re.S
         )
     else:
-        os.makedirs(cdir, exist_ok=True)
-        if not r.get("error", "").startswith("timeout") or True:
+        # cache only decided runs: a timeout / out-of-memory / crash depends on the caps and on
+        # the machine load of that moment, not on the sources
+        decided = not r.get("error") and (r["verdict"] == "SUCCESSFUL" or (r["verdict"] == "FAILED" and r["failed"]))
+        if decided:
+            os.makedirs(cdir, exist_ok=True)
             json.dump(r, open(cfile, "w"))
     return r
 
